@@ -764,11 +764,24 @@ def run_generators(ctx):
 
 
 def run(ctx):
-    ctx.rule = ('builder: call sequences over k real OptGraphBuilder objects (exhaustive up to length 3/4 over a '
-                'small alphabet incl. out-of-range indices, None / empty / (None, params) operations, merges, '
-                'random longer ones), observed after every call; distinct = distinct call sequence; non-trivial = '
-                'some builder reaches >= 2 nodes.')
-    ctx.trusted_extra = ['copy.deepcopy modelled as a fresh isomorphic sub-heap; LinkedGraph.sort_nodes not modelled']
+    ctx.rule = ('builder: call sequences over k real OptGraphBuilder objects (exhaustive: length 1-2 over the whole '
+                'alphabet of 34/40 calls, length 3 over its first 13/24, thorough length 4 over its first 10, each '
+                'followed by two builds of builder 0 and of the first merged builder; random sequences of length 4-13 '
+                'over 1-3 builders; alphabet: every method, out-of-range and negative indices, None / empty / '
+                '(None, params) operations, merges incl. self-merge), observed after every call; distinct = distinct '
+                'call sequence; non-trivial = some builder reaches >= 2 nodes.  generators: one random_graph call per '
+                'case over max_depth 1..6 x min<=max arity 1..4 x 1..3 node types x verifier rule sets x override '
+                'argument x total/partial node factory x seed (plus attempt-limit and empty-arity-range cases); '
+                'non-trivial = a graph with >= 2 nodes was returned.  populations: one InitialPopulationGenerator call '
+                'per case (pop_size 0..12, same grid); non-trivial = at least 2 graphs returned.')
+    ctx.trusted_extra = [
+        'copy.deepcopy modelled as a fresh isomorphic sub-heap (uids kept); uuid4 as an injective naming; '
+        'LinkedGraph.sort_nodes not modelled (cannot change the set of root nodes); graph adapters are None',
+        'random.randint / random.choices / node_factory.get_node are choice oracles: choices are inferred from the '
+        'observed attempt trees inside Coq (total node factory) or found by backtracking over the node factory log in '
+        'the harness (partial node factory); distance_to_root_level modelled as recursion depth',
+        'the arity lower bound is claimed and checked for total node factories only; depth bound = max(effective '
+        'max_depth, 2) when requirements.max_depth > 1 (equals max_depth unless the override argument is 0 or 1)']
     run_builder(ctx)
     run_generators(ctx)
 
